@@ -67,6 +67,7 @@ Children(s)   == {c \in Stages : P.parent[c] = s}
 InOrder(S)    == SelectSeq(P.stages, LAMBDA x : x \in S)       \* a set of stages in store order
 Downstream(s) == {d \in Stages : s \in P.req[d]}
 Initial       == {s \in TopLevel : P.req[s] = {}}
+SignalTargets == {s \in Stages : \E i \in DOMAIN P.tasks[s] : P.beh[P.tasks[s][i]].k = "suspend"}
 IdxStage(s)   == CHOOSE i \in DOMAIN P.stages : P.stages[i] = s
 IdxOf(t)      == CHOOSE i \in DOMAIN TasksOf(StageOf(t)) : TasksOf(StageOf(t))[i] = t
 NextTask(t)   == IF IdxOf(t) < Len(TasksOf(StageOf(t))) THEN TasksOf(StageOf(t))[IdxOf(t) + 1] ELSE ""
@@ -199,7 +200,7 @@ Cur      == CHOOSE m \in q : m.id = wk.mid
 EnvOK    == Idle \/ EnvBetween
 Visible(m) == ~m.lock /\ ~m.delayed /\ m.att < MaxAttempts
 SetWk(pc)  == wk' = [wk EXCEPT !.pc = pc]
-IdleWk     == [wk EXCEPT !.pc = "idle", !.mid = NoMsg, !.out = ""]
+IdleWk     == [wk EXCEPT !.pc = "idle", !.mid = NoMsg, !.out = "", !.sib = <<>>]
 Label(n)   == lbl' = [name |-> n, mid |-> wk.mid, c |-> TRUE]    \* a step that is a database commit
 LabelN(n)  == lbl' = [name |-> n, mid |-> wk.mid, c |-> FALSE]   \* a step without commit
 
@@ -215,13 +216,14 @@ Init ==
   /\ tk = [t \in {x \in AllTasks : StageOf(x) \in TopLevel} |-> TaskRow0]
   /\ LET r == PushSeq({}, {}, 1, <<StartWorkflowM>>) IN q = r.q /\ pushed = r.pushed /\ nextId = r.nid
   /\ dlq = {} /\ done = {} /\ claims = <<>>
-  /\ wk = [pc |-> "idle", mid |-> NoMsg, out |-> "", seen |-> {}, auth |-> TRUE]   \* hydrated from an empty store
+  /\ wk = [pc |-> "idle", mid |-> NoMsg, out |-> "", sib |-> <<>>, seen |-> {}, auth |-> TRUE]   \* hydrated from an empty store
   /\ ledger = [t \in AllTasks |-> <<>>]
   /\ gh = [starts |-> [s \in Stages |-> 0],      \* NOT_STARTED -> RUNNING claims per stage
            rearms |-> [s \in Stages |-> 0],      \* times a jump re-armed the stage
            resulted |-> {},                      \* tasks whose RunTask result commit is durable (this iteration)
            execAfterCancel |-> 0,                \* task executions after the cancel flag became durable
-           unfinishedAtCancel |-> {}]            \* stages still needing a task execution when the flag was set
+           unfinishedAtCancel |-> {},            \* stages still needing a task execution when the flag was set
+           sent |-> 0, consumed |-> 0, resumes |-> 0]  \* persistent signals sent / consumed, SUSPENDED -> RUNNING resumes
   /\ cnt = Cnt0
   /\ lbl = [name |-> "Init", mid |-> NoMsg, c |-> FALSE]
 
@@ -312,6 +314,17 @@ ShouldSkip(s) == P.enabled[s] = "no"
 MutexBlocked(s) == P.mutex[s] # "" /\ \E o \in Stages \ {s} : o \in DOMAIN st /\ P.mutex[o] = P.mutex[s] /\ st[o].status = "RUNNING"
 ChoiceClaimed(s) == P.choice[s] # "" /\ \E o \in Stages \ {s} : o \in DOMAIN st /\ P.choice[o] = P.choice[s] /\ st[o].status # "NOT_STARTED"
 
+MutexKey(s)  == "mutex:" \o P.mutex[s]
+ChoiceKey(s) == "choice:" \o P.choice[s]
+MutexClaimOK(s) ==   \* persistence/sqlite/transaction.py:acquire_claim(steal_if_owner_terminal=True)
+  \/ P.mutex[s] = "" \/ MutexKey(s) \notin DOMAIN claims \/ claims[MutexKey(s)] = s
+  \/ claims[MutexKey(s)] \notin DOMAIN st \/ st[claims[MutexKey(s)]].status \in Complete
+ChoiceClaimOK(s) ==
+  \/ P.choice[s] = "" \/ ChoiceKey(s) \notin DOMAIN claims \/ claims[ChoiceKey(s)] = s
+ClaimsAfter(s) ==
+  LET K == (IF P.mutex[s] = "" THEN {} ELSE {MutexKey(s)}) \cup (IF P.choice[s] = "" THEN {} ELSE {ChoiceKey(s)})
+  IN [k \in DOMAIN claims \cup K |-> IF k \in K THEN s ELSE claims[k]]
+
 StartStage ==
   /\ H("StartStage")
   /\ LET s == Cur.s
@@ -353,17 +366,38 @@ StartStage ==
             THEN /\ Commit(<<CancelStageM(s)>>, TRUE)
                  /\ SetWk("hdone") /\ Label("StartStageChoiceLost")
                  /\ UNCHANGED <<wf, st, tk, dlq, claims, ledger, gh, cnt>>
-            ELSE \* the claim: NOT_STARTED -> RUNNING under version + status compare-and-swap
+            ELSE IF ~MutexClaimOK(s)
+            THEN \* claim row held by a live owner: transaction rolled back, StartStage re-queued with a delay
+                 /\ Commit(<<StartStageRC(s, Cur.rc + 1)>>, FALSE)
+                 /\ SetWk("hdone") /\ Label("StartStageMutexClaimBlocked")
+                 /\ UNCHANGED <<wf, st, tk, dlq, claims, ledger, gh, cnt>>
+            ELSE IF ~ChoiceClaimOK(s)
+            THEN /\ Commit(<<CancelStageM(s)>>, TRUE)
+                 /\ SetWk("hdone") /\ Label("StartStageChoiceClaimLost")
+                 /\ UNCHANGED <<wf, st, tk, dlq, claims, ledger, gh, cnt>>
+            ELSE \* the claim: NOT_STARTED -> RUNNING under version + status compare-and-swap,
+                 \* mutex / deferred-choice claim rows in the same transaction
                  /\ st' = [Bump(st, s) EXCEPT ![s].status = "RUNNING", ![s].started = TRUE,
                                               ![s].bypass = FALSE]
                  /\ tk' = Touch(tk, s)
+                 /\ claims' = ClaimsAfter(s)
                  /\ gh' = [gh EXCEPT !.starts[s] = @ + 1]
                  /\ NoQueueChange
-                 /\ SetWk("ss_claimed") /\ Label("StartStageClaim")
-                 /\ UNCHANGED <<wf, dlq, claims, ledger, cnt>>
+                 /\ wk' = [wk EXCEPT !.pc = "ss_claimed",
+                                     !.sib = IF P.choice[s] = "" THEN <<>>
+                                             ELSE InOrder({o \in DOMAIN st \ {s} : P.choice[o] = P.choice[s]
+                                                                                  /\ st[o].status = "NOT_STARTED"})]
+                 /\ Label("StartStageClaim")
+                 /\ UNCHANGED <<wf, dlq, ledger, cnt>>
+
+StartStageCancelSibling ==   \* deferred choice won: one CancelStage per still NOT_STARTED sibling, own commits
+  /\ wk.pc = "ss_claimed" /\ wk.sib # <<>>
+  /\ Commit(<<CancelStageM(Head(wk.sib))>>, FALSE)
+  /\ wk' = [wk EXCEPT !.sib = Tail(@)] /\ Label("StartStageCancelSibling")
+  /\ UNCHANGED <<wf, st, tk, dlq, claims, ledger, gh, cnt>>
 
 StartStagePlan ==   \* second commit: planned context + tasks + first continuation + mark
-  /\ wk.pc = "ss_claimed"
+  /\ wk.pc = "ss_claimed" /\ wk.sib = <<>>
   /\ LET s == Cur.s IN
      /\ st' = [Bump(st, s) EXCEPT ![s].fired = @ \/ P.join[s] \in {"DISCRIMINATOR", "N_OF_M"}]
      /\ tk' = Touch(tk, s)
@@ -426,7 +460,9 @@ RunTaskResult ==
   /\ wk.pc = "rt_result"
   /\ LET t == Cur.t s == Cur.s o == wk.out IN
      /\ gh' = IF o \in {"succ", "term", "jump"} \/ (o \in {"transient", "transientnc"} /\ ~RetryBudgetLeft)
-              THEN [gh EXCEPT !.resulted = @ \cup {t}] ELSE gh
+              THEN [gh EXCEPT !.resulted = @ \cup {t}]
+              ELSE IF o = "suspend" /\ st[s].buf > 0 THEN [gh EXCEPT !.consumed = @ + 1, !.resumes = @ + 1]
+              ELSE gh
      /\ CASE o = "succ" ->
                /\ st' = Bump(st, s) /\ tk' = Touch(tk, s)
                /\ Commit(<<CompleteTaskM(t, "SUCCEEDED")>>, TRUE)
@@ -655,11 +691,37 @@ JumpToStage ==
           /\ SetWk("hdone") /\ Label("JumpApply")
           /\ UNCHANGED <<wf, dlq, claims, ledger, cnt>>
 
+(* handlers/signal_stage.py *)
+SuspendedTask(s) == LET S == SelectSeq(TasksOf(s), LAMBDA t : tk[t].status = "SUSPENDED") IN IF S = <<>> THEN "" ELSE S[1]
+SignalStage ==
+  /\ H("SignalStage")
+  /\ LET s == Cur.s IN
+     IF st[s].status = "SUSPENDED"
+     THEN LET t == SuspendedTask(s) IN
+          /\ st' = [Bump(st, s) EXCEPT ![s].status = "RUNNING", ![s].sig = TRUE]
+          /\ tk' = [x \in DOMAIN tk |-> IF StageOf(x) = s
+                                        THEN [tk[x] EXCEPT !.ver = @ + 1, !.status = IF x = t THEN "RUNNING" ELSE @]
+                                        ELSE tk[x]]
+          /\ Commit(IF t # "" THEN <<RunTaskM(t)>> ELSE <<StartStageM(s)>>, TRUE)
+          /\ gh' = [gh EXCEPT !.resumes = @ + 1, !.consumed = @ + (IF Cur.pers THEN 1 ELSE 0)]
+          /\ SetWk("hdone") /\ Label("SignalDeliver")
+          /\ UNCHANGED <<wf, dlq, claims, ledger, cnt>>
+     ELSE IF Cur.pers
+     THEN \* not suspended (yet): a persistent signal is buffered on the stage, under the version CAS
+          /\ st' = [Bump(st, s) EXCEPT ![s].buf = @ + 1]
+          /\ tk' = Touch(tk, s)
+          /\ Commit(<<>>, TRUE)
+          /\ SetWk("hdone") /\ Label("SignalBuffer")
+          /\ UNCHANGED <<wf, dlq, claims, ledger, gh, cnt>>
+     ELSE /\ Commit(<<>>, TRUE) /\ SetWk("hdone") /\ Label("SignalDrop")
+          /\ UNCHANGED <<wf, st, tk, dlq, claims, ledger, gh, cnt>>
+
 Handlers ==
   \/ StartWorkflow \/ StartStage \/ StartStagePlan \/ StartTask
   \/ RunTaskGuard \/ RunTaskExec \/ RunTaskResult \/ CompleteTask
   \/ CompleteStage \/ SkipStage \/ CancelStage \/ CompleteWorkflow
-  \/ CancelWorkflowFlag \/ CancelWorkflowTxn \/ JumpToStage
+  \/ CancelWorkflowFlag \/ CancelWorkflowTxn \/ JumpToStage \/ SignalStage
+  \/ StartStageCancelSibling
 
 -----------------------------------------------------------------------------
 (* Environment *)
@@ -685,7 +747,7 @@ TimePasses(m) ==
 
 CrashWhen(allowIdle) ==   \* process kill: volatile state is lost, locks stay; a fresh worker recovers first
   /\ cnt.crashes < MaxCrashes /\ (allowIdle \/ ~Idle)
-  /\ wk' = [pc |-> "idle", mid |-> NoMsg, out |-> "", seen |-> done, auth |-> TRUE]   \* fresh filter, hydrated at start
+  /\ wk' = [pc |-> "idle", mid |-> NoMsg, out |-> "", sib |-> <<>>, seen |-> done, auth |-> TRUE]   \* fresh filter, hydrated at start
   /\ cnt' = [cnt EXCEPT !.crashes = @ + 1, !.needSweep = TRUE]
   /\ lbl' = [name |-> "Crash", mid |-> wk.mid, c |-> FALSE]
   /\ UNCHANGED <<durable, ledger, gh>>
@@ -750,6 +812,20 @@ SendCancel ==
   /\ lbl' = [name |-> "SendCancel", mid |-> NoMsg, c |-> TRUE]
   /\ UNCHANGED <<wf, st, tk, dlq, claims, wk, ledger, gh>>
 
+SendSignal(s, pers) ==
+  /\ EnvOK /\ cnt.signals < MaxSignals /\ s \in DOMAIN st
+  /\ Commit(<<SignalM(s, pers)>>, FALSE)
+  /\ cnt' = [cnt EXCEPT !.signals = @ + 1]
+  /\ gh' = [gh EXCEPT !.sent = @ + (IF pers THEN 1 ELSE 0)]
+  /\ lbl' = [name |-> "SendSignal", mid |-> <<"SignalStage", s, IF pers THEN "persistent" ELSE "transient", 0>>, c |-> TRUE]
+  /\ UNCHANGED <<wf, st, tk, dlq, claims, wk, ledger>>
+
+ClaimSweep ==   \* retention sweep: persistence/sqlite/operations.py:cleanup_completed_stage_claims
+  /\ Idle
+  /\ claims' = IF wf.status \in Complete THEN <<>> ELSE claims    \* claims of live executions are never swept
+  /\ lbl' = [name |-> "ClaimSweep", mid |-> NoMsg, c |-> TRUE]
+  /\ UNCHANGED <<wf, st, tk, q, dlq, done, nextId, pushed, wk, ledger, gh, cnt>>
+
 EarlyStart(s) ==    \* a StartStage for an arbitrary stage at an arbitrary moment
   /\ Idle /\ cnt.early < MaxEarly /\ s \in TopLevel /\ wf.status = "RUNNING"
   /\ Commit(<<StartStageM(s)>>, FALSE)
@@ -759,8 +835,9 @@ EarlyStart(s) ==    \* a StartStage for an arbitrary stage at an arbitrary momen
 
 Environment ==
   \/ \E m \in q : LockExpire(m) \/ TimePasses(m)
-  \/ Crash \/ Sweep \/ DLQSweep \/ SendCancel
+  \/ Crash \/ Sweep \/ DLQSweep \/ SendCancel \/ ClaimSweep
   \/ \E s \in Stages : EarlyStart(s)
+  \/ \E s \in SignalTargets, pers \in BOOLEAN : SendSignal(s, pers)
 
 Processor == (\E m \in q : Poll(m)) \/ Dedup \/ DedupTrusted \/ HRet \/ PostMark \/ Ack \/ Withhold \/ HRaise \/ Reschedule
 
